@@ -284,6 +284,72 @@ def wrap(e):
     return e
 
 
+_CTX = z3.main_ctx().ref()
+_IV = {}
+_RV = {}
+
+
+def _ival(n):
+    v = _IV.get(n)
+    if v is None:
+        v = z3.IntVal(n)
+        if -4096 <= n <= 4096:
+            _IV[n] = v
+    return v
+
+
+def _rval(q):
+    v = _RV.get(q)
+    if v is None:
+        v = z3.RealVal(q)
+        if len(_RV) < 4096:
+            _RV[q] = v
+    return v
+
+
+def _wrap_k(e, kind):
+    """simplify + wrap with a statically known result kind ('i', 'r', 'b') -- avoids sort look-ups"""
+    e = z3.simplify(e)
+    ast = e.as_ast()
+    if kind == "b":
+        v = z3.Z3_get_bool_value(_CTX, ast)
+        if v == z3.Z3_L_TRUE:
+            return True
+        if v == z3.Z3_L_FALSE:
+            return False
+        return SBool(e)
+    if z3.Z3_is_numeral_ast(_CTX, ast):
+        if kind == "i":
+            return e.as_long()
+        return Fraction(e.numerator_as_long(), e.denominator_as_long())
+    return SInt(e) if kind == "i" else SReal(e)
+
+
+def _zk(x):
+    """python/symbolic scalar -> (z3 term, 'i' | 'r') or (None, None)"""
+    t = type(x)
+    if t is SInt:
+        return x.e, "i"
+    if t is SReal:
+        return x.e, "r"
+    if t is int:
+        return _ival(x), "i"
+    if t is Fraction:
+        return _rval(x), "r"
+    if t is bool:
+        return _ival(int(x)), "i"
+    if t is float:
+        if x != x or x in (float("inf"), float("-inf")):
+            return None, None
+        return _rval(Fraction(x)), "r"
+    if t is SBool:
+        return z3.If(x.e, _ival(1), _ival(0)), "i"
+    e = _z(x)
+    if e is NotImplemented:
+        return None, None
+    return e, ("i" if z3.is_int(e) else "r")
+
+
 def _z(x):
     """python/symbolic scalar -> z3 arithmetic term (NotImplemented if not a number)."""
     if isinstance(x, (SInt, SReal)):
@@ -346,7 +412,7 @@ def _mix(a, b):
 
 
 def _isnum(e):
-    return z3.is_int_value(e) or z3.is_rational_value(e)
+    return z3.Z3_is_numeral_ast(_CTX, e.as_ast())
 
 
 def _flag_nl():
@@ -360,6 +426,45 @@ def _mul(a, b):
         if not _isnum(a2) and not _isnum(b2):
             _flag_nl()
     return a * b
+
+
+def _add(a, b):
+    return a + b
+
+
+def _sub(a, b):
+    return a - b
+
+
+def _lt(a, b):
+    return a < b
+
+
+def _le(a, b):
+    return a <= b
+
+
+def _gt(a, b):
+    return a > b
+
+
+def _ge(a, b):
+    return a >= b
+
+
+def _eq(a, b):
+    return a == b
+
+
+def _ne(a, b):
+    return a != b
+
+
+def _rdiv(a, b):
+    """true division of two real-sorted terms"""
+    if not z3.Z3_is_numeral_ast(_CTX, b.as_ast()):
+        _flag_nl()
+    return a / b
 
 
 def _tdiv(a, b):
@@ -462,69 +567,82 @@ class SBool:
 
 class SNum:
     __slots__ = ("e",)
+    K = "r"
 
-    def _bin(self, o, f, nanres=None):
-        zo = _z(o)
-        if zo is NotImplemented:
+    def _op(self, o, f, res, swap=False, nanres=None):
+        """res: 'a' arithmetic (int if both int), 'r' always real, 'b' comparison"""
+        zo, ko = _zk(o)
+        if zo is None:
             if _isnan(o):
                 return float("nan") if nanres is None else nanres
             return NotImplemented
-        a, b = _mix(self.e, zo)
-        return wrap(f(a, b))
+        a, ka = self.e, self.K
+        if res == "r":
+            if ka == "i":
+                a = z3.ToReal(a)
+            if ko == "i":
+                zo = z3.ToReal(zo)
+            kind = "r"
+        else:
+            if ka != ko:
+                if ka == "i":
+                    a = z3.ToReal(a)
+                else:
+                    zo = z3.ToReal(zo)
+                kind = "r"
+            else:
+                kind = ka
+            if res == "b":
+                kind = "b"
+        return _wrap_k(f(zo, a) if swap else f(a, zo), kind)
 
-    def _rbin(self, o, f, nanres=None):
-        zo = _z(o)
-        if zo is NotImplemented:
-            if _isnan(o):
-                return float("nan") if nanres is None else nanres
-            return NotImplemented
-        a, b = _mix(zo, self.e)
-        return wrap(f(a, b))
+    def _bin(self, o, f, nanres=None):  # kept for external callers
+        return self._op(o, f, "a", False, nanres)
 
     def __add__(self, o):
-        return self._bin(o, lambda a, b: a + b)
+        return self._op(o, _add, "a")
 
     def __radd__(self, o):
-        return self._rbin(o, lambda a, b: a + b)
+        return self._op(o, _add, "a", True)
 
     def __sub__(self, o):
-        return self._bin(o, lambda a, b: a - b)
+        return self._op(o, _sub, "a")
 
     def __rsub__(self, o):
-        return self._rbin(o, lambda a, b: a - b)
+        return self._op(o, _sub, "a", True)
 
     def __mul__(self, o):
-        return self._bin(o, _mul)
+        return self._op(o, _mul, "a")
 
     def __rmul__(self, o):
-        return self._rbin(o, _mul)
+        return self._op(o, _mul, "a", True)
 
     def __neg__(self):
-        return wrap(-self.e)
+        return _wrap_k(-self.e, self.K)
 
     def __pos__(self):
         return self
 
     def __abs__(self):
-        return wrap(z3.If(self.e >= 0, self.e, -self.e))
+        return _wrap_k(z3.If(self.e >= 0, self.e, -self.e), self.K)
 
     def __truediv__(self, o):
-        return self._bin(o, _tdiv)
+        return self._op(o, _rdiv, "r")
 
     def __rtruediv__(self, o):
-        return self._rbin(o, _tdiv)
+        return self._op(o, _rdiv, "r", True)
 
     def __floordiv__(self, o):
-        return self._bin(o, _floordiv)
+        return self._op(o, _floordiv, "a")
 
     def __rfloordiv__(self, o):
-        return self._rbin(o, _floordiv)
+        return self._op(o, _floordiv, "a", True)
 
     def __mod__(self, o):
-        return self._bin(o, _mod)
+        return self._op(o, _mod, "a")
 
     def __rmod__(self, o):
-        return self._rbin(o, _mod)
+        return self._op(o, _mod, "a", True)
 
     def __pow__(self, o):
         if isinstance(o, float) and o == int(o):
@@ -538,24 +656,27 @@ class SNum:
             return sym_sqrt(self)
         raise ModelGap("pow with exponent %r" % (o,))
 
+    def __rpow__(self, o):
+        raise ModelGap("pow with symbolic exponent")
+
     def __lt__(self, o):
-        return self._bin(o, lambda a, b: a < b, False)
+        return self._op(o, _lt, "b", False, False)
 
     def __le__(self, o):
-        return self._bin(o, lambda a, b: a <= b, False)
+        return self._op(o, _le, "b", False, False)
 
     def __gt__(self, o):
-        return self._bin(o, lambda a, b: a > b, False)
+        return self._op(o, _gt, "b", False, False)
 
     def __ge__(self, o):
-        return self._bin(o, lambda a, b: a >= b, False)
+        return self._op(o, _ge, "b", False, False)
 
     def __eq__(self, o):
-        r = self._bin(o, lambda a, b: a == b, False)
+        r = self._op(o, _eq, "b", False, False)
         return False if r is NotImplemented else r
 
     def __ne__(self, o):
-        r = self._bin(o, lambda a, b: a != b, True)
+        r = self._op(o, _ne, "b", False, True)
         return True if r is NotImplemented else r
 
     def __bool__(self):
@@ -567,6 +688,7 @@ class SNum:
 
 class SInt(SNum):
     __slots__ = ()
+    K = "i"
 
     def __init__(self, e):
         self.e = e
